@@ -5,7 +5,8 @@ import Nuts.Model.ListDS
 import Nuts.Spec.RList
 import NutsProofs.Lemmas.LRem
 import NutsProofs.Lemmas.Isolation
-import NutsProofs.Facts
+import NutsProofs.Pins.ListDS
+import NutsProofs.Pins.TxApi
 namespace NutsProofs.C05
 open Nuts Nuts.Model Nuts.Spec
 
@@ -340,5 +341,9 @@ theorem C05_push_pop_record_is_redis (l : ListDS.St) (r : Rec) (k' : Bytes)
 (`NutsProofs.Facts.expectedTxApiStmts`). -/
 theorem C05_tx_api_regenerated : NutsGen.F.txApiStmts = NutsProofs.Facts.expectedTxApiStmts :=
   NutsProofs.Facts.tx_api_ok
+
+/-- **regenerated tie.** every condition, loop and call of ds/list/list.go is, on this run, the source `Nuts.Model.ListDS` was written from (`NutsProofs.Facts.expectedListStmts`); the index arithmetic of `LRange` / `LSet` / `Ltrim` is additionally regenerated as kernels. -/
+theorem C05_list_statements_regenerated : NutsGen.F.listStmts = NutsProofs.Facts.expectedListStmts :=
+  NutsProofs.Facts.list_stmts_ok
 
 end NutsProofs.C05
